@@ -69,8 +69,14 @@ def verify_unit_worker(qualname: str) -> dict:
             dropped=sorted(r.dropped),
             gen_s=round(r.gen_s, 3),
         )
+        # a budget hit is retried with a larger budget only when the unit's source is the one the baseline was recorded for
+        # (then it is load, not a change of the code); on changed code an obligation that does not verify within the
+        # budget must fail fast, or the retries of several such obligations exhaust the unit's budget
+        _b_unit = read_baseline()["units"].get(qualname, {})
+        source_unchanged = _b_unit.get("sha256") in (None, r.sha)
+
         def do_ob(ob):
-            v = discharge(ob, r.axioms, second_opinion=False)
+            v = discharge(ob, r.axioms, second_opinion=False, retry=source_unchanged)
             rec = {
                 "id": ob.id,
                 "kind": ob.kind,
